@@ -377,15 +377,26 @@ def gen_binop_case(rng, op):
     if scal_b: B = [scalar(rb)]
     if lists and rng.random() < 0.3:
         (A if rng.random() < 0.5 else B).append(scalar(ra if op != 'div' else 'unit'))
+    if len(A) + len(B) > 2:
+        # a list is reduced pairwise: keep one column common to all proper frames, otherwise an intermediate result is the
+        # degenerate empty Series of the no-common-column case (outside the claim) and the next step cannot use it
+        for l in A + B:
+            if 'F' in l and len(l['F']['cols']) > 1 and 'a' not in l['F']['cols']:
+                l['F']['cols'] = ['a'] + l['F']['cols'][1:]
     if op == 'div':
         # a column the numerator lacks is filled with 1: keep 1/b an integer then (divisors 0, +-1)
         a_cols = [set(l['F']['cols']) for l in A if 'F' in l and len(l['F']['cols']) > 1]
         b_multi = [l for l in B if 'F' in l and len(l['F']['cols']) > 1]
         risky = b_multi and (cpol[0] in 'or') and (not a_cols or any(not set(l['F']['cols']) <= set.intersection(*a_cols) for l in b_multi))
         if risky:
+            unit = lambda v: None if v is None else max(-1, min(1, v))
             for l in B:
                 if 'F' in l:
-                    l['F']['rows'] = [[(None if v is None else max(-1, min(1, v))) for v in row] for row in l['F']['rows']]
+                    l['F']['rows'] = [[unit(v) for v in row] for row in l['F']['rows']]
+                elif 'S' in l:
+                    l['S'] = [[t, unit(v)] for t, v in l['S']]
+                else:
+                    l['N'] = unit(l['N'])
     a = {'many': A} if (len(A) > 1 or (lists and rng.random() < 0.3)) else A[0]
     b = {'many': B} if (len(B) > 1 or (lists and rng.random() < 0.3)) else B[0]
     case = {'kind': 'op', 'op': op, 'a': a, 'b': b, 'how': how, 'method': method, 'columns': cpol}
